@@ -1,12 +1,16 @@
 import PdeVerif.Model.Interrupts
 import PdeVerif.Lemmas.Basic
 import Mathlib.Algebra.Order.Archimedean.Basic
+import Mathlib.Algebra.Order.GroupWithZero.Basic
+import Mathlib.Tactic.NormNum
 /-
 C09 - interrupt schedules are strictly increasing and stay on their lattice.
 Property theorems about `PdeVerif.Interrupts` (model of pde/trackers/interrupts.py).
 All statements hold for every ordered field with floor, every parameter set and every
 query list (induction over the list of queries).
 -/
+set_option linter.unusedSectionVars false
+
 namespace PdeVerif.Interrupts
 open PdeVerif
 
@@ -148,10 +152,8 @@ theorem logNext_gap (f : K) (st : K × K) (t : K) (hpos : 0 < st.1 * f) :
 theorem logNext_gap_exact (f : K) (st : K × K) (t : K) (h : t < st.2 + st.1 * f) :
     (logNext f st t).2 = st.2 + st.1 * f := constNext_no_catchup _ _ _ h
 
-/-- **C09, logarithmic schedule, whole histories**: after `j` answers the period is
-`d*f^j`; every answer is `≥` its query and exceeds its predecessor by at least the nominal
-gap `d*f^(j+1)` (the gaps grow by the factor `f ≥ 1`). -/
-theorem runLog_spec (f : K) (hf : 1 ≤ f) :
+/-- the weakest form: every gap of a history is at least the *first* nominal gap `d*f` -/
+theorem runLog_min_gap (f : K) (hf : 1 ≤ f) :
     ∀ (ts : List K) (st : K × K), 0 < st.1 →
       List.Forall₂ (fun t a => t ≤ a) ts (runLog f st ts) ∧
       (st.2 :: runLog f st ts).IsChain (fun a b => a + st.1 * f ≤ b) := by
@@ -175,6 +177,56 @@ theorem runLog_spec (f : K) (hf : 1 ≤ f) :
       rw [e] at hab
       have : st.1 * f ≤ st.1 * f * f := by nlinarith
       linarith
+
+/-- **growing gaps over a history** (`runLog_period` and `logNext_gap` composed): the `j`-th
+answer of a history exceeds its predecessor (`st.2` for `j = 0`) by at least the *running* period
+`d * f^(j+1)`, where `d = st.1` is the period stored before the first call -/
+theorem runLog_gaps (f : K) (hf : 1 ≤ f) :
+    ∀ (ts : List K) (st : K × K), 0 < st.1 →
+      ∀ (j : Nat) (a b : K), (st.2 :: runLog f st ts)[j]? = some a → (runLog f st ts)[j]? = some b →
+        a + st.1 * f ^ (j + 1) ≤ b := by
+  intro ts
+  induction ts with
+  | nil => intro st _ j a b _ hb; simp [runLog] at hb
+  | cons t ts ih =>
+    intro st hst j a b ha hb
+    have hf0 : 0 < f := lt_of_lt_of_le one_pos hf
+    have hpos : 0 < st.1 * f := mul_pos hst hf0
+    simp only [runLog] at ha hb
+    cases j with
+    | zero =>
+      simp only [List.getElem?_cons_zero, Option.some.injEq] at ha hb
+      subst ha; subst hb
+      simpa using (logNext_gap f st t hpos).1
+    | succ j =>
+      simp only [List.getElem?_cons_succ] at ha hb
+      have := ih (logNext f st t) hpos j a b (by simpa using ha) hb
+      have e : (logNext f st t).1 = st.1 * f := rfl
+      rw [e] at this
+      calc a + st.1 * f ^ (j + 1 + 1) = a + st.1 * f * f ^ (j + 1) := by ring
+        _ ≤ b := this
+
+/-- **C09, logarithmic schedule, whole histories**: every answer is `≥` its query, and the gap
+between answer `j-1` and answer `j` is at least the nominal gap `d*f^(j+1)` - the gaps grow by the
+factor `f ≥ 1` (for `LogarithmicInterrupts(dt_initial, f)`: `d = dt_initial/f`, so gap `j` is at
+least `dt_initial * f^j`; equality without catch-up: `logNext_gap_exact`). -/
+theorem runLog_spec (f : K) (hf : 1 ≤ f) (ts : List K) (st : K × K) (hst : 0 < st.1) :
+    List.Forall₂ (fun t a => t ≤ a) ts (runLog f st ts) ∧
+      ∀ (j : Nat) (a b : K), (st.2 :: runLog f st ts)[j]? = some a → (runLog f st ts)[j]? = some b →
+        a + st.1 * f ^ (j + 1) ≤ b :=
+  ⟨(runLog_min_gap f hf ts st hst).1, runLog_gaps f hf ts st hst⟩
+
+/-- the schedule as a user sees it: `LogarithmicInterrupts(dt0, f, t_start)` after `initialize(t)`;
+gap `j` (between answers `j-1` and `j`, answer `-1` being the first action time) is `≥ dt0 * f^j` -/
+theorem logarithmic_schedule (dt0 f : K) (hd : 0 < dt0) (hf : 1 ≤ f) (tStart : Option K) (tInit : K)
+    (ts : List K) (j : Nat) (a b : K)
+    (ha : (constInit tStart tInit :: runLog f (dt0 / f, constInit tStart tInit) ts)[j]? = some a)
+    (hb : (runLog f (dt0 / f, constInit tStart tInit) ts)[j]? = some b) :
+    a + dt0 * f ^ j ≤ b := by
+  have hf0 : 0 < f := lt_of_lt_of_le one_pos hf
+  have := runLog_gaps f hf ts (dt0 / f, constInit tStart tInit) (div_pos hd hf0) j a b ha hb
+  have e : dt0 / f * f ^ (j + 1) = dt0 * f ^ j := by rw [pow_succ]; field_simp
+  simpa [e] using this
 
 /-- the nominal gap sequence: after `j` calls the stored period is `d * f^j` -/
 theorem runLog_period (f : K) (st : K × K) (ts : List K) :
@@ -367,7 +419,12 @@ theorem fixed_schedule (l : List K) (hl : l.Pairwise (· < ·)) (ts : List K) :
   obtain ⟨h1, _, h3, h4⟩ := runRem_spec ts l hl none (by simp)
   exact ⟨h1, h3, h4⟩
 
-/-! ### geometric interrupts -/
+/-! ### geometric interrupts: the specification model
+
+`geomNext` is *not* the code's algorithm: it is the least-lattice-point search that the code's
+`log/ceil/pow` computation is meant to implement.  The theorems of this section are about that
+specification; the code's own computation is modelled further below (`runGeomCode`) and linked
+to the specification by `geomCode_exact_is_least`. -/
 
 theorem geomSearch_spec (f t : K) :
     ∀ (fuel : Nat) (cand : K) (k : Nat) (r : K × Nat), geomSearch f t fuel cand k = some r →
@@ -576,6 +633,226 @@ theorem runGeom_ge_query (scale f : K) (hf : 1 < f) (hscale : 0 < scale) (fuel :
         obtain ⟨t', h1, h2⟩ := ih (some r0) (by intro v k e; cases e; exact s1) i (by simpa using hi) r hr
         exact ⟨t', by simpa using h1, h2⟩
 
+/-! ### geometric interrupts: the code's own computation
+
+`GeometricInterrupts.next` computes `t_min = max(t, last*factor**0.5)` (first call:
+`scale*factor**-0.5`), `i = log(t_min/scale)/log(factor)` and answers `scale * factor**ceil(i)`.
+The float logarithm is external, so `ceil(i)` is an oracle value `e : Int` of the model
+(`runGeomCode`), and the constants `sq = factor**0.5`, `sqInv = factor**-0.5` are parameters that
+need not be exact square roots.  The theorems hold for *every* oracle that is a ceiling of the
+logarithm up to a relative tolerance `ε` of its argument (`CeilLogOK`: `f^(e-1) < x*(1+ε)` and
+`x ≤ f^e*(1+ε)`; `ε = 0` is the exact ceiling) as long as the tolerance is small against `√f`
+(`GeomConsts`). -/
+
+theorem powNat_eq_pow (f : K) (n : Nat) : powNat f n = f ^ n := by
+  induction n with
+  | zero => simp [powNat]
+  | succ n ih => rw [powNat, ih, pow_succ]
+
+theorem powInt_eq_zpow (f : K) (e : Int) : powInt f e = f ^ e := by
+  unfold powInt
+  split_ifs with h
+  · rw [powNat_eq_pow]
+    obtain ⟨n, rfl⟩ := Int.eq_ofNat_of_zero_le h
+    simp
+  · push Not at h
+    rw [powNat_eq_pow]
+    obtain ⟨n, hn⟩ := Int.eq_ofNat_of_zero_le (by omega : 0 ≤ -e)
+    have : e = -(n : Int) := by omega
+    subst this
+    simp
+
+def CeilLogOK (f ε x : K) (e : Int) : Prop := x ≤ f ^ e * (1 + ε) ∧ f ^ (e - 1) < x * (1 + ε)
+
+theorem ceilLogOK_zero_iff (f x : K) (e : Int) : CeilLogOK f 0 x e ↔ (f ^ (e - 1) < x ∧ x ≤ f ^ e) := by
+  unfold CeilLogOK; simp [and_comm]
+
+theorem pyMax_ge_left (a b : K) : a ≤ pyMax a b := by
+  unfold pyMax; split_ifs with h <;> [exact h.le; exact le_refl _]
+
+theorem pyMax_ge_right (a b : K) : b ≤ pyMax a b := by
+  unfold pyMax; split_ifs with h <;> [exact le_refl _; exact not_lt.mp h]
+
+theorem pyMax_cases (a b : K) : pyMax a b = a ∨ pyMax a b = b := by
+  unfold pyMax; split_ifs <;> simp
+
+structure GeomConsts (f sq sqInv ε : K) : Prop where
+  hf : 1 < f
+  hε : 0 ≤ ε
+  sq_gt : 1 + ε < sq
+  sq_lt : sq * (1 + ε) ≤ f
+  inv_gt : 1 + ε < sqInv * f
+  inv_lt : sqInv * (1 + ε) ≤ 1
+
+/-- the state of the schedule: `none` before the first call (exponent bound `-1`), else the last
+answer `scale * f^kl` -/
+def GeomState (scale f : K) (last : Option K) (kl : Int) : Prop :=
+  (last = none → kl = -1) ∧ ∀ v, last = some v → v = scale * f ^ kl
+
+theorem geomCode_step (scale f sq sqInv ε : K) (hc : GeomConsts f sq sqInv ε) (hscale : 0 < scale)
+    (last : Option K) (kl : Int) (hst : GeomState scale f last kl)
+    (t : K) (e : Int) (hok : CeilLogOK f ε (geomTmin scale sq sqInv last t / scale) e) :
+    geomCodeAnswer scale f e = scale * f ^ e ∧ kl < e ∧ t ≤ geomCodeAnswer scale f e * (1 + ε) ∧
+    (∀ v, last = some v → v < geomCodeAnswer scale f e) ∧
+    (∀ k' : Int, kl < k' → t * (1 + ε) ≤ scale * f ^ k' → e ≤ k') := by
+  have hf0 : 0 < f := lt_trans one_pos hc.hf
+  have h1e : 0 < 1 + ε := by linarith [hc.hε]
+  have hans : geomCodeAnswer scale f e = scale * f ^ e := by unfold geomCodeAnswer; rw [powInt_eq_zpow]
+  set tm := geomTmin scale sq sqInv last t with htm
+  set x := tm / scale with hx
+  have hxs : x * scale = tm := by rw [hx]; field_simp
+  obtain ⟨hup, hlow⟩ := hok
+  have hpe : 0 < f ^ e := zpow_pos hf0 e
+  have hpk : 0 < f ^ kl := zpow_pos hf0 kl
+  -- lower bound of x from the state: f^kl * sq ≤ x (first call: kl = -1, f^-1 * (sqInv*f))
+  have hge0 : geomTmin0 scale sq sqInv last ≤ tm := by
+    rw [htm]; unfold geomTmin; exact pyMax_ge_right (K := K) _ _
+  have hxlow : f ^ kl * (1 + ε) < x := by
+    cases hl : last with
+    | none =>
+      have hk := hst.1 hl
+      have h0 : scale * sqInv ≤ tm := by rw [hl] at hge0; exact hge0
+      have : sqInv ≤ x := by
+        rw [hx, le_div_iff₀ hscale]; linarith [mul_comm scale sqInv]
+      rw [hk, zpow_neg, zpow_one]
+      have : f⁻¹ * (1 + ε) < sqInv := by
+        rw [inv_mul_lt_iff₀ hf0]; linarith [hc.inv_gt, mul_comm sqInv f]
+      linarith
+    | some v =>
+      have hv := hst.2 v hl
+      have h0 : v * sq ≤ tm := by rw [hl] at hge0; exact hge0
+      have : f ^ kl * sq ≤ x := by
+        rw [hx, le_div_iff₀ hscale]; rw [hv] at h0; nlinarith
+      have : f ^ kl * (1 + ε) < f ^ kl * sq := mul_lt_mul_of_pos_left hc.sq_gt hpk
+      linarith
+  have hkle : kl < e := by
+    have : f ^ kl * (1 + ε) < f ^ e * (1 + ε) := lt_of_lt_of_le hxlow hup
+    have : f ^ kl < f ^ e := lt_of_mul_lt_mul_right this h1e.le
+    exact (zpow_lt_zpow_iff_right₀ hc.hf).mp this
+  have htle : t ≤ tm := by rw [htm]; unfold geomTmin; exact pyMax_ge_left (K := K) _ _
+  refine ⟨hans, hkle, ?_, ?_, ?_⟩
+  · rw [hans]
+    have : tm ≤ scale * (f ^ e * (1 + ε)) := by
+      rw [← hxs]; nlinarith
+    linarith
+  · intro v hl
+    rw [hans, hst.2 v hl]
+    exact mul_lt_mul_of_pos_left (zpow_lt_zpow_right₀ hc.hf hkle) hscale
+  · intro k' hk' ht'
+    -- x * (1+ε) ≤ f^k'
+    have hxk : x * (1 + ε) ≤ f ^ k' := by
+      have hcase : tm = t ∨ tm = geomTmin0 scale sq sqInv last := by
+        rw [htm]; unfold geomTmin; exact pyMax_cases (K := K) _ _
+      rcases hcase with h | h
+      · have : x * scale * (1 + ε) ≤ scale * f ^ k' := by rw [hxs, h]; exact ht'
+        have : scale * (x * (1 + ε)) ≤ scale * f ^ k' := by linarith
+        exact le_of_mul_le_mul_left this hscale
+      · cases hl : last with
+        | none =>
+          rw [hl] at h
+          have hk := hst.1 hl
+          have hx' : x = sqInv := by rw [hx, h]; unfold geomTmin0; field_simp
+          have h0 : (0 : Int) ≤ k' := by omega
+          have : (1 : K) ≤ f ^ k' := by
+            have := zpow_le_zpow_right₀ hc.hf.le h0
+            simpa using this
+          rw [hx']; linarith [hc.inv_lt]
+        | some v =>
+          rw [hl] at h
+          have hv := hst.2 v hl
+          have hx' : x = f ^ kl * sq := by rw [hx, h]; unfold geomTmin0; rw [hv]; field_simp
+          have h1 : f ^ kl * (sq * (1 + ε)) ≤ f ^ kl * f := mul_le_mul_of_nonneg_left hc.sq_lt hpk.le
+          have h2 : f ^ kl * f = f ^ (kl + 1) := (zpow_add_one₀ hf0.ne' kl).symm
+          have h3 : f ^ (kl + 1) ≤ f ^ k' := zpow_le_zpow_right₀ hc.hf.le (by omega)
+          rw [hx']; nlinarith
+    have : f ^ (e - 1) < f ^ k' := lt_of_lt_of_le hlow hxk
+    have := (zpow_lt_zpow_iff_right₀ hc.hf).mp this
+    omega
+
+/-- every oracle value of a history is a ceiling of the logarithm up to the tolerance -/
+def OracleOKHist (scale f sq sqInv ε : K) : Option K → List (K × Int) → Prop
+  | _, [] => True
+  | last, (t, e) :: rest =>
+    CeilLogOK f ε (geomTmin scale sq sqInv last t / scale) e ∧
+      OracleOKHist scale f sq sqInv ε (some (geomCodeAnswer scale f e)) rest
+
+theorem runGeomCode_spec (scale f sq sqInv ε : K) (hc : GeomConsts f sq sqInv ε) (hscale : 0 < scale) :
+    ∀ (qs : List (K × Int)) (last : Option K) (kl : Int), GeomState scale f last kl →
+      OracleOKHist scale f sq sqInv ε last qs →
+      List.Forall₂ (fun (q : K × Int) (r : K × K) => r.2 = scale * f ^ q.2 ∧ q.1 ≤ r.2 * (1 + ε))
+        qs (runGeomCode scale f sq sqInv last qs) ∧
+      (kl :: qs.map Prod.snd).IsChain (· < ·) ∧
+      (∀ v, last = some v → ∀ r ∈ runGeomCode scale f sq sqInv last qs, v < r.2) ∧
+      ((runGeomCode scale f sq sqInv last qs).map Prod.snd).IsChain (· < ·) := by
+  intro qs
+  induction qs with
+  | nil => intro last kl _ _; simp [runGeomCode]
+  | cons q qs ih =>
+    intro last kl hst hok
+    obtain ⟨t, e⟩ := q
+    obtain ⟨hok1, hok2⟩ := hok
+    obtain ⟨hans, hkle, hge, hgt, _⟩ := geomCode_step scale f sq sqInv ε hc hscale last kl hst t e hok1
+    have hst' : GeomState scale f (some (geomCodeAnswer scale f e)) e :=
+      ⟨fun h => (by cases h), fun v hv => (by cases hv; exact hans)⟩
+    obtain ⟨g1, g2, g3, g4⟩ := ih (some (geomCodeAnswer scale f e)) e hst' hok2
+    refine ⟨?_, ?_, ?_, ?_⟩
+    · simp only [runGeomCode]
+      exact List.Forall₂.cons ⟨hans, hge⟩ g1
+    · simp only [List.map_cons]
+      exact List.IsChain.cons_cons hkle g2
+    · intro v hv r hr
+      simp only [runGeomCode, List.mem_cons] at hr
+      rcases hr with rfl | hr
+      · exact hgt v hv
+      · exact lt_trans (hgt v hv) (g3 _ rfl r hr)
+    · simp only [runGeomCode, List.map_cons]
+      cases hrest : runGeomCode scale f sq sqInv (some (geomCodeAnswer scale f e)) qs with
+      | nil => simp
+      | cons r rs =>
+        rw [hrest] at g3 g4
+        simp only [List.map_cons] at g4 ⊢
+        exact List.IsChain.cons_cons (g3 _ rfl r List.mem_cons_self) g4
+
+/-- **C09, geometric schedule, the code's own computation, whole histories**: from a fresh object,
+for every query list and every oracle within the tolerance: every answer is the lattice point
+`scale * f^e` of its oracle value, the exponents are `≥ 0` and strictly increasing, the answers are
+strictly increasing, and no answer is earlier than its query by more than the factor `1 + ε`. -/
+theorem geometric_code_schedule (scale f sq sqInv ε : K) (hc : GeomConsts f sq sqInv ε) (hscale : 0 < scale)
+    (qs : List (K × Int)) (hok : OracleOKHist scale f sq sqInv ε none qs) :
+    List.Forall₂ (fun (q : K × Int) (r : K × K) => r.2 = scale * f ^ q.2 ∧ q.1 ≤ r.2 * (1 + ε))
+        qs (runGeomCode scale f sq sqInv none qs) ∧
+      ((-1 : Int) :: qs.map Prod.snd).IsChain (· < ·) ∧
+      ((runGeomCode scale f sq sqInv none qs).map Prod.snd).IsChain (· < ·) := by
+  obtain ⟨h1, h2, _, h4⟩ := runGeomCode_spec scale f sq sqInv ε hc hscale qs none (-1)
+    ⟨fun _ => rfl, fun v hv => (by cases hv)⟩ hok
+  exact ⟨h1, h2, h4⟩
+
+/-- with an exact oracle (`ε = 0`: `f^(e-1) < t_min/scale ≤ f^e`) the code's answer is the least
+lattice point not before the query whose exponent exceeds the previous one - the specification
+model `geomNext` -/
+theorem geomCode_exact_is_least (scale f sq sqInv : K) (hc : GeomConsts f sq sqInv 0) (hscale : 0 < scale)
+    (last : Option K) (kl : Int) (hst : GeomState scale f last kl) (t : K) (e : Int)
+    (hok : CeilLogOK f 0 (geomTmin scale sq sqInv last t / scale) e) :
+    t ≤ scale * f ^ e ∧ kl < e ∧ ∀ k' : Int, kl < k' → t ≤ scale * f ^ k' → e ≤ k' := by
+  obtain ⟨hans, hk, hge, _, hmin⟩ := geomCode_step scale f sq sqInv 0 hc hscale last kl hst t e hok
+  refine ⟨by rw [hans] at hge; simpa using hge, hk, ?_⟩
+  intro k' h1 h2
+  exact hmin k' h1 (by simpa using h2)
+
+/-- if the query has not passed the next lattice point, no lattice point is skipped -/
+theorem geomCode_no_skip (scale f sq sqInv ε : K) (hc : GeomConsts f sq sqInv ε) (hscale : 0 < scale)
+    (last : Option K) (kl : Int) (hst : GeomState scale f last kl) (t : K) (e : Int)
+    (hok : CeilLogOK f ε (geomTmin scale sq sqInv last t / scale) e)
+    (ht : t * (1 + ε) ≤ scale * f ^ (kl + 1)) : e = kl + 1 := by
+  obtain ⟨_, hk, _, _, hmin⟩ := geomCode_step scale f sq sqInv ε hc hscale last kl hst t e hok
+  have := hmin (kl + 1) (by omega) ht
+  omega
+
+/-- the hypotheses on the constants are satisfiable: f = 4, sq = 2, sqInv = 1/2, ε = 1/1000 -/
+example : GeomConsts (4 : K) 2 (1 / 2) (1 / 1000) :=
+  ⟨by norm_num, by norm_num, by norm_num, by norm_num, by norm_num, by norm_num⟩
+
+
 /-! ### non-vacuity: concrete schedules meet the hypotheses -/
 
 example : runConst (1/2 : Rat) 0 [0, 1/4, 3, 3] = [1/2, 1, 3, 7/2] := by decide +kernel
@@ -583,6 +860,15 @@ example : runFixed ([1, 2, 5] : List Rat) 0 [0, 0, 1/4, 3] = [some 1, some 2, so
   decide +kernel
 example : (runGeom (1 : Rat) 2 50 none [0, 0, 3, 3]).map (Option.map Prod.snd)
     = [some 0, some 1, some 2, some 3] := by decide +kernel
+example : runLog (2 : Rat) (1 / 2, 0) [0, 0, 10, 10] = [1, 3, 11, 19] := by decide +kernel
+/-- the code's computation with f = 4, sq = 2, sqInv = 1/2 and the exact ceilings as oracle values:
+queries 0, 0, 3, 100 -> answers 1, 4, 16, 256 (`t_min` = 1/2, 2, 8, 100) -/
+example : runGeomCode (1 : Rat) 4 2 (1 / 2) none [(0, 0), (0, 1), (3, 2), (100, 4)]
+    = [(1 / 2, 1), (2, 4), (8, 16), (100, 256)] := by decide +kernel
+/-- ... and these oracle values satisfy the hypothesis of `geometric_code_schedule` (exact ceilings) -/
+example : OracleOKHist (1 : Rat) 4 2 (1 / 2) 0 none [(0, 0), (0, 1), (3, 2)] := by
+  refine ⟨?_, ?_, ?_, trivial⟩ <;>
+    simp only [CeilLogOK, geomTmin, geomTmin0, pyMax, geomCodeAnswer, powInt_eq_zpow] <;> norm_num
 
 end
 end PdeVerif.Interrupts
